@@ -9,7 +9,8 @@ import math
 import struct
 
 __all__ = ["forall", "exists", "implies", "ite", "seq_eq_at", "unchanged", "is_nan", "is_finite", "f32_round",
-           "float_eq", "f32_bytes", "f64_bytes", "ghost", "fresh_int", "f32_of_bytes", "f64_of_bytes", "prefix_sum", "fresh_bool"]
+           "float_eq", "f32_bytes", "f64_bytes", "ghost", "fresh_int", "f32_of_bytes", "f64_of_bytes", "prefix_sum", "fresh_bool",
+           "region_of", "region_size", "key_of", "reach", "reach_transitive", "reach_closed", "reach_depth"]
 
 
 def forall(lo, hi, fn):
@@ -93,3 +94,47 @@ def prefix_sum(seq, i):
 
 def fresh_bool(name="b"):
     raise NotImplementedError("fresh_bool has no concrete meaning (nondeterministic choice of the environment)")
+
+
+# ---- heap regions (contract.Region).  Native reading (replays, run-time reading): the objects of a region carry the list of
+# all objects of their region in the ghost attribute g_region (set by verify.make_concrete / by a hand-written replay).
+def region_of(x):
+    return x.g_region
+
+
+def region_size(region):
+    return len(region)
+
+
+def key_of(x):
+    if x is None:
+        return -1
+    for k, o in enumerate(x.g_region):
+        if o is x:
+            return k
+    return -1
+
+
+def reach(region, field, a, b):
+    """b is a, or reachable from a by following `field` (links of the PRE-state): the reflexive-transitive closure."""
+    a = region[a] if isinstance(a, int) and a >= 0 else (None if isinstance(a, int) else a)
+    b = region[b] if isinstance(b, int) and b >= 0 else (None if isinstance(b, int) else b)
+    seen = 0
+    while a is not None and seen <= len(region):
+        if a is b:
+            return True
+        a = getattr(a, field)
+        seen += 1
+    return a is None and b is None and False
+
+
+def reach_transitive(region, field):
+    return True     # a lemma, not an assumption about the input
+
+
+def reach_closed(region, field):
+    return True
+
+
+def reach_depth(region, field, depth_field):
+    return True
